@@ -119,6 +119,15 @@ add("C15", "exploration", E1 + " against ordered-dict reference models of merge/
     "equal the models, originals are never modified.",
     "Expected records are built through the public constructor from the model's (name, fields, values).", "DESIGN.md C15")
 
+add("C12", "exploration", E1 + " (all ordered value pairs per type, descriptor variants, nested/grouped wrappers, 8 ignore configurations given 3 ways) plus "
+    + "explicit-state search of the scoped ignore-configuration machine",
+    "For every field type (scalar and list) all ordered pairs of alphabet values as records (one rebuilt with a fresh descriptor after "
+    "clearing the class caches), six descriptor variants, nested and grouped wrappers, metadata variations, under all 8 ignored-field "
+    "sets given by setter, context manager and environment: == is reflexive, symmetric, equals the reference, != is its negation, "
+    "nothing raises, equal records hash equally and work as set/dict members; every well-nested history of set/enter/exit/exit-by-error "
+    "up to depth 5 (6) restores the configuration.",
+    "Reference equality by documented content of each field type; NaN is unequal to NaN.", "DESIGN.md C12")
+
 NOT_BUILT = "check not built yet in this round (design in DESIGN.md section 3); not claimed until it runs"
 
 
